@@ -161,6 +161,8 @@ def run_sanitisers(c, prog):
 
 
 def run(c, prog):
+    from . import C12 as _C12
+    _C12.rule_book(core.Alias(c, "C07"), prog, reader_rule=False)     # UniqueId::now() (clock + RNG) is reached only on a genuine collision: every removal releases its id
     g = flow.CallGraph(prog)
     roots = [f.path for f in prog.find_fns(SER_ROOTS)]
     if len(roots) < 4:
